@@ -1052,10 +1052,12 @@ func checkLocalCopyOnlyOnSilence(c *km.Ctx, rule string) {
 	}
 	sem := km.NewSem(c)
 	n := 0
-	for _, f := range callsWithNewHelpersFuncs(c, gs, 1) {
-		// the select between the primary's answer and the timer
-		var sel *ssa.Select
-		timeoutIdx := -1
+	fam := callsWithNewHelpersFuncs(c, gs, 2)
+	// the select between the primary's answer and the timer, and the function it lives in
+	var sel *ssa.Select
+	var selFn *ssa.Function
+	timeoutIdx := -1
+	for _, f := range fam {
 		km.Instrs(f, func(in ssa.Instruction) {
 			sl, ok := in.(*ssa.Select)
 			if !ok || len(sl.States) != 2 {
@@ -1063,30 +1065,72 @@ func checkLocalCopyOnlyOnSilence(c *km.Ctx, rule string) {
 			}
 			for i, st := range sl.States {
 				if cl, isC := km.Unwrap(st.Chan).(*ssa.Call); isC && km.CalleeFull(cl.Common()) == "time.After" {
-					sel, timeoutIdx = sl, i
+					sel, selFn, timeoutIdx = sl, f, i
 				}
 			}
 		})
+	}
+	silent := km.Prim{Name: "primary did not answer", Direct: func(fc km.Fact) bool {
+		ex, ok := fc.X.(*ssa.Extract)
+		if !ok || sel == nil || ex.Tuple != ssa.Value(sel) || ex.Index != 0 || fc.Y == nil {
+			return false
+		}
+		k, isK := km.ConstInt(fc.Y)
+		return isK && ((fc.Op == token.EQL && int(k) == timeoutIdx) || (fc.Op == token.NEQ && int(k) == 1-timeoutIdx))
+	}}
+	reaches := func(from, to *ssa.Function) bool {
+		if from == to {
+			return true
+		}
+		for _, g := range c.G.Callees[from] {
+			if g == to {
+				return true
+			}
+			for _, h := range c.G.Callees[g] {
+				if h == to {
+					return true
+				}
+			}
+		}
+		return false
+	}
+	for _, f := range fam {
 		for _, ci := range km.CallsIn(f) {
 			if km.CalleeFull(ci.Common()) != "(*database/sql.DB).Prepare" || !mentionsField(ci.Common().Args[0], "cacheDB") {
 				continue
 			}
 			n++
 			if sel == nil {
-				c.R.Add(rule, km.FuncName(f), "local copy read only when the primary is silent", posOf(c, ci), "the read of cacheDB lies on the timeout arm of the select over the primary's answer", "no select between the primary's answer and a timer in this function", false)
+				c.R.Add(rule, km.FuncName(f), "local copy read only when the primary is silent", posOf(c, ci), "the read of cacheDB lies on the timeout arm of the select over the primary's answer", "no select between the primary's answer and a timer in GetSigned", false)
 				continue
 			}
-			silent := km.Prim{Name: "primary did not answer", Direct: func(fc km.Fact) bool {
-				ex, ok := fc.X.(*ssa.Extract)
-				if !ok || ex.Tuple != ssa.Value(sel) || ex.Index != 0 || fc.Y == nil {
-					return false
+			// where the decision to read the copy is taken: here, or - the read moved into a helper - at the calls
+			// in the select's function that lead to it
+			var sites []ssa.Instruction
+			if f == selFn {
+				sites = append(sites, ci)
+			} else {
+				for _, c2 := range km.CallsIn(selFn) {
+					if g := km.StaticCallee(c2.Common()); g != nil && c.InModule(g) && reaches(g, f) {
+						sites = append(sites, c2)
+					}
 				}
-				k, isK := km.ConstInt(fc.Y)
-				return isK && ((fc.Op == token.EQL && int(k) == timeoutIdx) || (fc.Op == token.NEQ && int(k) == 1-timeoutIdx))
-			}}
-			st := c.F.At(ci)
-			ok := len(st) > 0 && st.All(func(k km.Conj) bool { return sem.Holds(k, silent) })
-			c.R.Add(rule, km.FuncName(f), "local copy read only when the primary is silent", posOf(c, ci), "the read of cacheDB lies on the timeout arm of the select over the primary's answer", clipS(st.String(), 200), ok)
+			}
+			ok := len(sites) > 0
+			desc := ""
+			for _, site := range sites {
+				st := c.F.At(site)
+				if len(st) == 0 || !st.All(func(k km.Conj) bool { return sem.Holds(k, silent) }) {
+					ok = false
+					desc = clipS(st.String(), 200)
+				}
+			}
+			if ok {
+				desc = sprintf("%d site(s), each on the timer arm", len(sites))
+			} else if len(sites) == 0 {
+				desc = "the read is not reached from the function that waits for the primary"
+			}
+			c.R.Add(rule, km.FuncName(f), "local copy read only when the primary is silent", posOf(c, ci), "the read of cacheDB lies on the timeout arm of the select over the primary's answer", desc, ok)
 		}
 	}
 	if n == 0 {
